@@ -1,6 +1,8 @@
 //! Simulated network: a `RuntimeProvider` whose UDP sockets deliver each datagram to a tiny
 //! table-driven authoritative responder (plus hostile injection) and log every contact.
-//! TCP connects are logged and refused.
+//! TCP connects are logged and refused, except at servers flagged `tcp` (fan-out worlds): those
+//! answer TC=1 over UDP when the response exceeds the payload size advertised by the query and
+//! serve the same responder over a length-framed in-memory stream.
 
 use std::collections::{HashMap, VecDeque};
 use std::future::Future;
@@ -31,15 +33,52 @@ impl Time for VTime {
     }
 }
 
-pub struct NoTcp;
-impl futures::io::AsyncRead for NoTcp {
-    fn poll_read(self: Pin<&mut Self>, _: &mut Context<'_>, _: &mut [u8]) -> Poll<io::Result<usize>> {
-        Poll::Ready(Ok(0))
+/// in-memory TCP connection to one simulated server: every complete length-framed query written
+/// is answered at once into the read buffer
+pub struct SimTcp {
+    net: Net,
+    peer: IpAddr,
+    wbuf: Vec<u8>,
+    rbuf: VecDeque<u8>,
+    waker: Option<Waker>,
+}
+impl futures::io::AsyncRead for SimTcp {
+    fn poll_read(self: Pin<&mut Self>, cx: &mut Context<'_>, buf: &mut [u8]) -> Poll<io::Result<usize>> {
+        let this = self.get_mut();
+        if this.rbuf.is_empty() {
+            this.waker = Some(cx.waker().clone());
+            return Poll::Pending;
+        }
+        let n = this.rbuf.len().min(buf.len());
+        for b in buf.iter_mut().take(n) {
+            *b = this.rbuf.pop_front().unwrap_or(0);
+        }
+        Poll::Ready(Ok(n))
     }
 }
-impl futures::io::AsyncWrite for NoTcp {
-    fn poll_write(self: Pin<&mut Self>, _: &mut Context<'_>, _: &[u8]) -> Poll<io::Result<usize>> {
-        Poll::Ready(Err(io::Error::new(io::ErrorKind::BrokenPipe, "no tcp")))
+impl futures::io::AsyncWrite for SimTcp {
+    fn poll_write(self: Pin<&mut Self>, _: &mut Context<'_>, buf: &[u8]) -> Poll<io::Result<usize>> {
+        let this = self.get_mut();
+        this.wbuf.extend_from_slice(buf);
+        while this.wbuf.len() >= 2 {
+            let len = u16::from_be_bytes([this.wbuf[0], this.wbuf[1]]) as usize;
+            if this.wbuf.len() < 2 + len {
+                break;
+            }
+            let frame: Vec<u8> = this.wbuf.drain(..2 + len).skip(2).collect();
+            match exchange(&this.net, this.peer, &frame, true) {
+                Xchg::Capped => return Poll::Ready(Err(io::Error::new(io::ErrorKind::Other, "simnet: per-query message cap reached"))),
+                Xchg::Answer(bytes) => {
+                    this.rbuf.extend((bytes.len() as u16).to_be_bytes());
+                    this.rbuf.extend(bytes);
+                    if let Some(w) = this.waker.take() {
+                        w.wake();
+                    }
+                }
+                Xchg::Nothing => {}
+            }
+        }
+        Poll::Ready(Ok(buf.len()))
     }
     fn poll_flush(self: Pin<&mut Self>, _: &mut Context<'_>) -> Poll<io::Result<()>> {
         Poll::Ready(Ok(()))
@@ -48,11 +87,12 @@ impl futures::io::AsyncWrite for NoTcp {
         Poll::Ready(Ok(()))
     }
 }
-impl DnsTcpStream for NoTcp {
+impl DnsTcpStream for SimTcp {
     type Time = VTime;
 }
 
-/// one datagram (or TCP connect) the network saw
+/// one datagram, TCP connect (`tcp`, empty `qname`) or query sent over an accepted TCP connection
+/// (`tcp`, `qname` set) the network saw
 #[derive(Clone, Debug)]
 pub struct Contact {
     pub ip: IpAddr,
@@ -76,8 +116,10 @@ pub struct NetState {
     pub log: Vec<Contact>,
     pub delivered: Vec<Delivered>,
     pub top: usize,
-    /// datagrams sent during the current top-level query
+    /// datagrams (and queries over accepted TCP connections) sent during the current top-level query
     pub sent_this_top: u64,
+    /// of these: datagrams answered TC=1 (the same query comes again over TCP)
+    pub truncated_this_top: u64,
     /// sends beyond this per-top count fail with an io error (keeps a runaway loop finite)
     pub hard_cap: u64,
     pub cap_hit: bool,
@@ -103,6 +145,7 @@ impl Net {
         let mut st = self.st.lock().unwrap();
         st.top = top;
         st.sent_this_top = 0;
+        st.truncated_this_top = 0;
         st.cap_hit = false;
         if st.t0.is_none() {
             st.t0 = Some(tokio::time::Instant::now());
@@ -133,44 +176,75 @@ impl DnsUdpSocket for SimUdp {
         }
     }
     fn poll_send_to(&self, _cx: &mut Context<'_>, buf: &[u8], target: SocketAddr) -> Poll<io::Result<usize>> {
-        let q = match Message::from_vec(buf) {
-            Ok(q) if !q.queries.is_empty() => q,
-            _ => {
-                self.net.st.lock().unwrap().undecodable_queries += 1;
-                return Poll::Ready(Ok(buf.len()));
-            }
-        };
-        let qname_exact = q.queries[0].name.clone();
-        let qname = lower(&qname_exact.to_ascii());
-        let qtype = q.queries[0].query_type.to_string();
-        {
-            let mut st = self.net.st.lock().unwrap();
-            st.sent_this_top += 1;
-            let vt_ms = st.t0.map(|t| t.elapsed().as_millis() as u64).unwrap_or(0);
-            let top = st.top;
-            st.log.push(Contact { ip: target.ip(), tcp: false, qname: qname.clone(), qtype: qtype.clone(), vt_ms, top });
-            if st.sent_this_top > st.hard_cap {
-                st.cap_hit = true;
-                return Poll::Ready(Err(io::Error::new(io::ErrorKind::Other, "simnet: per-query datagram cap reached")));
-            }
-        }
-        if let Some(resp) = respond(&self.net, target.ip(), &qname, &qtype) {
-            let mut m = Message::response(q.id, OpCode::Query);
-            m.add_query(q.queries[0].clone());
-            m.metadata.authoritative = resp.aa;
-            m.metadata.response_code = resp.rcode;
-            m.add_answers(resp.ans.iter().filter_map(to_record));
-            m.add_authorities(resp.auth.iter().filter_map(to_record));
-            m.add_additionals(resp.add.iter().filter_map(to_record));
-            if let Ok(bytes) = m.to_vec() {
+        match exchange(&self.net, target.ip(), buf, false) {
+            Xchg::Capped => return Poll::Ready(Err(io::Error::new(io::ErrorKind::Other, "simnet: per-query datagram cap reached"))),
+            Xchg::Answer(bytes) => {
                 self.inbox.lock().unwrap().push_back((bytes, target));
                 if let Some(w) = self.waker.lock().unwrap().take() {
                     w.wake();
                 }
             }
+            Xchg::Nothing => {}
         }
         Poll::Ready(Ok(buf.len()))
     }
+}
+
+enum Xchg {
+    /// undecodable query, or the server stays silent
+    Nothing,
+    Capped,
+    Answer(Vec<u8>),
+}
+
+/// one query message arriving at the server `ip` (datagram, or frame of an accepted TCP connection)
+fn exchange(net: &Net, ip: IpAddr, buf: &[u8], tcp: bool) -> Xchg {
+    let q = match Message::from_vec(buf) {
+        Ok(q) if !q.queries.is_empty() => q,
+        _ => {
+            net.st.lock().unwrap().undecodable_queries += 1;
+            return Xchg::Nothing;
+        }
+    };
+    let qname_exact = q.queries[0].name.clone();
+    let qname = lower(&qname_exact.to_ascii());
+    let qtype = q.queries[0].query_type.to_string();
+    {
+        let mut st = net.st.lock().unwrap();
+        st.sent_this_top += 1;
+        let vt_ms = st.t0.map(|t| t.elapsed().as_millis() as u64).unwrap_or(0);
+        let top = st.top;
+        st.log.push(Contact { ip, tcp, qname: qname.clone(), qtype: qtype.clone(), vt_ms, top });
+        if st.sent_this_top > st.hard_cap {
+            st.cap_hit = true;
+            return Xchg::Capped;
+        }
+    }
+    let Some(resp) = respond(net, ip, &qname, &qtype) else { return Xchg::Nothing };
+    let mut m = Message::response(q.id, OpCode::Query);
+    m.add_query(q.queries[0].clone());
+    m.metadata.authoritative = resp.aa;
+    m.metadata.response_code = resp.rcode;
+    m.add_answers(resp.ans.iter().filter_map(to_record));
+    m.add_authorities(resp.auth.iter().filter_map(to_record));
+    m.add_additionals(resp.add.iter().filter_map(to_record));
+    let Ok(bytes) = m.to_vec() else { return Xchg::Nothing };
+    let serves_tcp = net.world.server(&ip.to_string()).map(|s| s.tcp).unwrap_or(false);
+    if !tcp && serves_tcp && bytes.len() > q.max_payload() as usize {
+        // does not fit the datagram the client is prepared to receive: TC=1, nothing else
+        let mut t = Message::response(q.id, OpCode::Query);
+        t.add_query(q.queries[0].clone());
+        t.metadata.authoritative = resp.aa;
+        t.metadata.truncation = true;
+        let mut st = net.st.lock().unwrap();
+        st.truncated_this_top += 1;
+        *st.resp_kinds.entry("truncated".to_string()).or_insert(0) += 1;
+        return match t.to_vec() {
+            Ok(b) => Xchg::Answer(b),
+            Err(_) => Xchg::Nothing,
+        };
+    }
+    Xchg::Answer(bytes)
 }
 
 #[derive(Clone)]
@@ -183,16 +257,21 @@ impl RuntimeProvider for SimRuntime {
     type Handle = TokioHandle;
     type Timer = VTime;
     type Udp = SimUdp;
-    type Tcp = NoTcp;
+    type Tcp = SimTcp;
     fn create_handle(&self) -> TokioHandle {
         self.handle.clone()
     }
-    fn connect_tcp(&self, server: SocketAddr, _: Option<SocketAddr>, _: Option<Duration>) -> Pin<Box<dyn Send + Future<Output = Result<NoTcp, io::Error>>>> {
+    fn connect_tcp(&self, server: SocketAddr, _: Option<SocketAddr>, _: Option<Duration>) -> Pin<Box<dyn Send + Future<Output = Result<SimTcp, io::Error>>>> {
         {
             let mut st = self.net.st.lock().unwrap();
             let vt_ms = st.t0.map(|t| t.elapsed().as_millis() as u64).unwrap_or(0);
             let top = st.top;
             st.log.push(Contact { ip: server.ip(), tcp: true, qname: String::new(), qtype: String::new(), vt_ms, top });
+        }
+        let listens = self.net.world.server(&server.ip().to_string()).map(|s| s.tcp && !s.silent).unwrap_or(false);
+        if listens {
+            let net = self.net.clone();
+            return Box::pin(async move { Ok(SimTcp { net, peer: server.ip(), wbuf: vec![], rbuf: VecDeque::new(), waker: None }) });
         }
         Box::pin(async { Err(io::Error::new(io::ErrorKind::ConnectionRefused, "simnet: no tcp")) })
     }
@@ -365,10 +444,62 @@ pub fn genuine(world: &World, s: &Server, qname: &str, qtype: &str) -> Option<Re
     Some(r)
 }
 
+/// hostile CNAME fan-out (see `world::Fan`); None = not a fan name of a zone served here
+pub fn fan_response(world: &World, s: &Server, qname: &str, qtype: &str) -> Option<Resp> {
+    let f = world.fan.as_ref()?;
+    if s.silent || f.zones.is_empty() {
+        return None;
+    }
+    let (zone, path) = f.locate(qname)?;
+    if !s.zones.iter().any(|z| z == zone) || path.len() > f.nest as usize || path.iter().any(|i| *i >= f.k) {
+        return None;
+    }
+    let own = match qtype {
+        "A" => Rec::new(qname, "A", "198.51.100.20"),
+        "AAAA" => Rec::new(qname, "AAAA", "2001:db8:51::20"),
+        "TXT" => Rec::new(qname, "TXT", "fan"),
+        _ => {
+            let mut r = Resp::new("nodata", true, ResponseCode::NoError);
+            r.auth.push(soa(zone));
+            return Some(r);
+        }
+    };
+    if path.len() == f.nest as usize {
+        let mut r = Resp::new("answer", true, ResponseCode::NoError);
+        r.ans.push(own);
+        return Some(r);
+    }
+    let mut r = Resp::new("fanout", true, ResponseCode::NoError);
+    let some_in_answer = f.layout == "answer" || f.layout == "spread";
+    if f.a_rec || !some_in_answer {
+        r.ans.push(own);
+    }
+    let stem: String = path.iter().map(|i| format!("-{i}")).collect();
+    for i in 0..f.k {
+        let tz = &f.zones[i as usize % f.zones.len()];
+        let owner = if f.owner == "qname" { qname.to_string() } else { format!("x{stem}-{i}.{zone}") };
+        let rec = Rec::new(&owner, "CNAME", &format!("t{stem}-{i}.{tz}"));
+        match f.layout.as_str() {
+            "answer" => r.ans.push(rec),
+            "authority" => r.auth.push(rec),
+            "additional" => r.add.push(rec),
+            _ => match i % 3 {
+                0 => r.ans.push(rec),
+                1 => r.auth.push(rec),
+                _ => r.add.push(rec),
+            },
+        }
+    }
+    Some(r)
+}
+
 pub fn respond(net: &Net, ip: IpAddr, qname: &str, qtype: &str) -> Option<Resp> {
     let ips = ip.to_string();
     let s = net.world.server(&ips)?;
-    let mut r = genuine(&net.world, s, qname, qtype)?;
+    let mut r = match fan_response(&net.world, s, qname, qtype) {
+        Some(r) => r,
+        None => genuine(&net.world, s, qname, qtype)?,
+    };
     let mut st = net.st.lock().unwrap();
     *st.resp_kinds.entry(r.kind.to_string()).or_insert(0) += 1;
     for inj in &s.inj {
